@@ -118,6 +118,7 @@ class Sentence:
         self.tokens = []  # token texts in order
         self.statements = []  # model: dicts {path, kw, args (raw texts), vals (bytes), rule, alias}
         self.productions = set()  # (rule, alias or index) used
+        self.blocks = []  # every block opened, in source order: {path, apath}
 
 
 def _alts(rule):
@@ -137,15 +138,19 @@ def gen_profile(rng, max_statements=40, hostile=True, force=None, variants=True)
             st["args"].append(raw)
             st["vals"].append(val)
 
-    def expand(rule, alt, path, forced):
+    def expand(rule, alt, path, forced, apath=()):
         """forced: remaining chain [(rule, alt index), ...] that must be taken below this node (forcing mode)"""
         s.productions.add((rule, alt["alias"] if alt["alias"] else "#%d" % LANG[rule].index(alt)))
         items = alt["items"]
         is_block = ("kw", "{") in items
         st = None
         if not is_block and ("kw", ";") in items:
-            st = {"path": tuple(path), "kw": [], "args": [], "vals": [], "rule": rule, "alias": alt["alias"]}
+            st = {"path": tuple(path), "apath": tuple(apath), "kw": [], "args": [], "vals": [], "rule": rule, "alias": alt["alias"]}
         newpath = list(path)
+        newapath = tuple(apath) + ((alt["alias"] or rule,) if is_block or rule in ("data_transform",) else ())
+        if is_block:
+            s.blocks.append({"path": None, "apath": newapath, "n_children": 0})
+            blk = s.blocks[-1]
         for kind, val in items:
             if kind == "kw":
                 s.tokens.append(val)
@@ -170,19 +175,21 @@ def gen_profile(rng, max_statements=40, hostile=True, force=None, variants=True)
             elif kind in ("star", "ref"):
                 sub = val
                 if forced and forced[0][0] == sub:
-                    expand(sub, LANG[sub][forced[0][1]], newpath, forced[1:])
+                    expand(sub, LANG[sub][forced[0][1]], newpath, forced[1:], newapath)
                     if kind == "star" and force is None:
                         pass
                 elif kind == "ref":
-                    expand(sub, rng.choice(_alts(sub)), newpath, [])
+                    expand(sub, rng.choice(_alts(sub)), newpath, [], newapath)
                 elif force is None:
                     k = rng.choice([0, 1, 1, 2, 3, 5])
                     while k > 0 and budget[0] > 0:
                         budget[0] -= 1
-                        expand(sub, rng.choice(_alts(sub)), newpath, [])
+                        expand(sub, rng.choice(_alts(sub)), newpath, [], newapath)
                         k -= 1
         if st is not None:
             s.statements.append(st)
+        if is_block:
+            blk["path"] = tuple(newpath)
 
     if force:
         expand("value", LANG["value"][force[0][1]], [], list(force[1:]))
